@@ -143,6 +143,14 @@ func buildScenario(p *C06Plan, wrap stack.Options) (*scenario, error) {
 		switch p.Initial {
 		case "prefix":
 			add(sc.honest[:k])
+		case "tallstale":
+			// a stale branch with MORE blocks but far less work than the honest prefix (every block 256 times lighter),
+			// taller than anything a node will announce: heights of stale headers must not be mistaken for the tip's
+			if k < 1 {
+				k = 1
+			}
+			add(sc.honest[:k])
+			add(sc.u.Extend(nil, len(sc.honest)+extra+7, 98, 0x1e00ffff))
 		case "stalefork":
 			// a short stale branch of its own plus a prefix of the honest chain
 			add(sc.honest[:k])
@@ -619,7 +627,7 @@ func genC06(t *rapid.T) *C06Plan {
 			p.Nodes[i].Spec.Cap = p.HonestLen/60 + 1
 		}
 	}
-	p.Initial = rapid.SampledFrom([]string{"genesis", "genesis", "prefix", "stalefork"}).Draw(t, "initial")
+	p.Initial = rapid.SampledFrom([]string{"genesis", "genesis", "prefix", "stalefork", "tallstale"}).Draw(t, "initial")
 	p.InitialArg = rapid.IntRange(1, p.HonestLen).Draw(t, "initarg")
 	ne := rapid.IntRange(0, 3).Draw(t, "nev")
 	for i := 0; i < ne; i++ {
